@@ -157,7 +157,7 @@ def run(ctx):
                                                    "INVARIANT OriginalUntouched\n", workers=2), expect_violation="OriginalUntouched")
     rng = ctx.rng
     traces = []
-    for k in range(600 if thorough else 150):
+    for k in range(4000 if thorough else 150):
         kind = rng.choice(["learner", "stacking", "transfer"])
         t = transfer_trace(k + 1, rng) if kind == "transfer" else wrap_trace(k + 1, rng, kind == "stacking")
         ctx.case((kind, t["sig"], str(t["ev"])[:300]), sample=dict(kind=kind, sig=t["sig"], ev=t["ev"][:3]))
@@ -167,7 +167,7 @@ def run(ctx):
     ctx.transitions += st["transitions"]
     ctx.verdicts(verdicts, {t["id"]: t for t in traces}, SITE_L, classify=classify)
     ctx.extra.setdefault("trace_runs", []).append(dict(spec="WrappersTrace", traces=len(traces), **st))
-    real_models(ctx, rng, 8 if thorough else 3)
+    real_models(ctx, rng, 25 if thorough else 3)
     ctx.exhaustive = False
     ctx.rule = ("MC: the TransferTransformer machine for every (copy_estimator, trainable) and fit history. C2S: wrappers around "
                 "recording stubs (regressor / classifier / transformer; predict, predict_proba, transform, callable), 1-4 members, "
